@@ -369,17 +369,53 @@ def consumer(ctx):
     ev = Evaluator(p)
     fr = ev.eval_function(do)
     R = strip_wrappers(ev.result(fr))
-    ok, why = False, "unmodelled _det_overlap"
     prm = [x.name for x in do.params if x.name != "self"]
+    # which parameter of the (private) helper is the creation list, the destruction list, the Green's function is
+    # read off what its callers pass: a block of a '*cre' table, of a '*des' table, anything else
+    sites = {}
+    roles = {}
+    consistent = True
+    for meth in ("_calc_overlap", "_calc_overlap_restricted"):
+        fi_ = p.func(f"wavefunctions.multislater.{meth}")
+        ev3, fr3 = common.eval_with_terms(p, fi_)
+        sites[meth] = (fi_, ev3, [])
+        seen = set()
+        for t in common.all_terms(ev3):
+            vm = match_vmap(t) if t.op == "call" else None
+            if vm is None or t.uid in seen:
+                continue
+            seen.add(t.uid)
+            f, in_axes, vargs = vm
+            if not (f.op == "attr" and f.args[1] == "_det_overlap") or len(vargs) != len(prm):
+                continue
+            amap = dict(zip(prm, vargs))
+            sites[meth][2].append((t, in_axes, amap))
+            for n_, a_ in amap.items():
+                lk = _list_key(a_)
+                r_ = "cre" if lk is not None and lk[0].endswith("cre") else (
+                    "des" if lk is not None and lk[0].endswith("des") else "green")
+                if roles.setdefault(n_, r_) != r_:
+                    consistent = False
+    by_role = {r_: [n_ for n_, x_ in roles.items() if x_ == r_] for r_ in ("green", "cre", "des")}
+    have_roles = consistent and all(len(v_) == 1 for v_ in by_role.values())
+    if not have_roles:
+        ctx.rep.note("multislater._det_overlap: the roles of its parameters could not be read off its call sites "
+                     f"({roles}); the index-axis and pairing rules do not apply")
+        return
+    gpar, cpar, dpar = by_role["green"][0], by_role["cre"][0], by_role["des"][0]
+    ok, why = False, "unmodelled _det_overlap"
     if R.op == "call" and (func_name(R) or "").endswith("linalg.det"):
         a = strip_wrappers(call_parts(R)[1][0])
-        if a.op == "getitem" and a.args[0] is sym(prm[0]) and a.args[1].op == "call" and \
+        if a.op == "getitem" and a.args[0] is sym(gpar) and a.args[1].op == "call" and \
                 (func_name(a.args[1]) or "").endswith(".ix_"):
             ia = call_parts(a.args[1])[1]
-            ok = len(ia) == 2 and ia[0] is sym(prm[1]) and ia[1] is sym(prm[2])
+            ok = len(ia) == 2 and ia[0] is sym(cpar) and ia[1] is sym(dpar)
             why = "det(green[ix_(cre, des)])" if ok else f"index order {[show(x) for x in ia]}"
-    ctx.ob("KIND-3", "multislater._det_overlap: creation list indexes axis 0 (electron position), destruction "
-           "list axis 1 (orbital label)", ok, why, do)
+    if why == "unmodelled _det_overlap":
+        ctx.rep.note("multislater._det_overlap: not of the form det(G[ix_(rows, columns)]); the index-axis rule does not apply")
+    else:
+        ctx.ob("KIND-3", "multislater._det_overlap: creation list indexes axis 0 (electron position), destruction "
+               "list axis 1 (orbital label)", ok, why, do)
     # Green's function axes
     for meth in ("_calc_green", "_calc_green_restricted"):
         fi = p.func(f"wavefunctions.multislater.{meth}")
@@ -403,21 +439,12 @@ def consumer(ctx):
                "Green's function is not of the expected form", fi)
     # call sites: spin / block-key pairing
     for meth, unrestricted in (("_calc_overlap", True), ("_calc_overlap_restricted", False)):
-        fi = p.func(f"wavefunctions.multislater.{meth}")
-        ev3, fr3 = common.eval_with_terms(p, fi)
+        fi, ev3, sts = sites[meth]
         n = 0
         bad = []
-        seen = set()
-        for t in common.all_terms(ev3):
-            vm = match_vmap(t) if t.op == "call" else None
-            if vm is None or t.uid in seen:
-                continue
-            seen.add(t.uid)
-            f, in_axes, vargs = vm
-            if not (f.op == "attr" and f.args[1] == "_det_overlap") or len(vargs) != 3:
-                continue
+        for t, in_axes, amap in sts:
             n += 1
-            g, cre, des = vargs
+            g, cre, des = amap[gpar], amap[cpar], amap[dpar]
             ck = _list_key(cre)
             dk = _list_key(des)
             if ck is None or dk is None:
@@ -432,9 +459,10 @@ def consumer(ctx):
                 want = 0 if ck[0][0] == "A" else 1
                 if gi != want:
                     bad.append(f"{ck[0]} lists index Green's function block {gi}")
-            if not (in_axes is not None and in_axes.op == "tuple" and len(in_axes.args) == 3 and
-                    is_const(in_axes.args[0], None) and is_const(in_axes.args[1], 0) and is_const(in_axes.args[2], 0)):
-                bad.append("in_axes is not (None, 0, 0)")
+            want_axes = [None if n_ == gpar else 0 for n_ in prm]
+            if not (in_axes is not None and in_axes.op == "tuple" and len(in_axes.args) == len(prm) and
+                    all(is_const(a_, w_) for a_, w_ in zip(in_axes.args, want_axes))):
+                bad.append("in_axes does not map the two index lists over axis 0 and broadcast the Green's function")
         ctx.ob("PAIR-1", f"multislater.{meth}: every sub-determinant pairs cre/des lists of one spin and one block "
                f"with that spin's Green's function", n >= 4 and not bad,
                f"{n} sub-determinant sites" + (f"; {sorted(set(bad))}" if bad else ""), fi)
